@@ -1,6 +1,7 @@
 #!/bin/bash
 # usage: tools/seed_eval.sh <PROP> <seed-name> <worktree> <outdir> <pkgdir>
 # confirms the demo in the worktree (fails with patch, passes without) and runs ./check PROP quick against /repo with the patch applied.
+export VERIF_EVIDENCE_DIR=/verif/.work/evidence-modified-tree   # keep /verif/evidence for runs on the unchanged tree
 export GOFLAGS=-mod=mod GOPROXY=off GOSUMDB=off GOTOOLCHAIN=local
 P=$1; NAME=$2; WT=$3; OUT=$4; PKG=$5
 D=/verif/seeded/$NAME; mkdir -p $D
